@@ -1,10 +1,10 @@
-(* AnglesFloatTie.v — the angle normalisers regenerated from the clang AST of the current source (gen/SrcFuns.v,
+(* AnglesFloatTie.v — the angle normalisers regenerated from the clang AST of the current source (gen/SrcFunsC10.v,
    translate/srcfuns.py), instantiated at the binary64 dictionary B64Ops, are the functions b02_64 / bpi_64 the
    floating-point theorems of AnglesFloat.v are about (the literals 2 and 0 convert exactly; 2 * M_PI is exact). *)
 From Coq Require Import Reals ZArith Lra Lia.
 From Flocq Require Import Core.
 From Romea Require Import Num NumR AnglesModel AnglesRoundtrip GridMapFloat AnglesFloat.
-From Romea.gen Require Import SrcFuns.
+From Romea.gen Require Import SrcFunsC10.
 Local Open Scope R_scope.
 
 Lemma src_2pi_b64 : nmul B64Ops (nofZ B64Ops 2) (npi B64Ops) = M_2PI64.
